@@ -260,6 +260,36 @@ pub fn cmd_replay(args: &[String]) -> i32 {
             }));
             let (nodes, keys) = r.unwrap_or((json!([{"kind": "panic", "prev": -1, "next": -1, "child": -1, "key": ""}]), json!([])));
             writeln!(out, "{}", json!({"ev": "patch", "hist": hi, "step": h.ops.len() + 1, "nodes": nodes, "keys": keys})).unwrap();
+            // a patch graph built from a tree that holds a whole note in the place of a block reference (the tree
+            // 'Inline section' starts from): one per block reference of every note whose target exists
+            let r = catch(std::panic::AssertUnwindSafe(|| {
+                let mut out: Vec<(Value, Value)> = vec![];
+                let mut ks = g.keys();
+                ks.sort();
+                for k in ks.iter() {
+                    let tree = (&g).collect(k);
+                    for id in g.get_block_references_in(k) {
+                        let target = tree.find(id).filter(|t| t.is_reference()).map(|_| tree.reference_key(id));
+                        if let Some(target) = target.filter(|t| (&g).get_node_id(t).is_some()) {
+                            let inlined = tree.replace(id, &(&g).collect(&target));
+                            let mut patch = g.new_patch();
+                            patch.build_key_from_iter(k, inlined.iter());
+                            out.push(snapshot(&patch));
+                        }
+                    }
+                }
+                out
+            }));
+            match r {
+                Ok(list) => {
+                    for (nodes, keys) in list {
+                        writeln!(out, "{}", json!({"ev": "patch_inlined", "hist": hi, "step": h.ops.len() + 2, "nodes": nodes, "keys": keys})).unwrap();
+                    }
+                }
+                Err(_) => {
+                    writeln!(out, "{}", json!({"ev": "patch_inlined", "hist": hi, "step": h.ops.len() + 2, "nodes": [{"kind": "panic", "prev": -1, "next": -1, "child": -1, "key": ""}], "keys": []})).unwrap();
+                }
+            }
         }
     }
     out.flush().unwrap();
